@@ -9,6 +9,13 @@
 //   v t x             one scalar of type t mod 12 whose bit pattern is x truncated to sizeof(T) (bool: x&1)
 //   a t x1 .. xn      Array<T> of n <= 100 elements with these bit patterns
 //   s k | bytes       k mod 3: 0 const char* (NULs dropped), 1 String (NULs dropped), 2 ByteArray
+//   ra k              write AGAIN the same Array object that the (k mod n)-th of the n earlier "a" ops created (in the order
+//                     now in force); the source objects live for the whole case and are shared by the three sinks, and after
+//                     every << the source (Array / String / ByteArray / C string) must still equal the model
+//   frag pause j1 i1 j2 i2 ..   additionally read everything back from a Socket whose peer delivers the reference bytes in
+//                     pieces: a cut at byte i (mod size) of item j (mod items) for every pair; after each piece the feeder
+//                     waits until the reader has drained the socket (so the reader is inside a multi-recv read when the cut
+//                     is inside a value) plus `pause` microseconds, then sends the next piece
 #include "common/vfrc.h"
 #include "common/ref_io.h"
 #include <asl/StreamBuffer.h>
@@ -16,6 +23,11 @@
 #include <asl/Socket.h>
 #include <sys/socket.h>
 #include <errno.h>
+#include <sys/ioctl.h>
+#include <thread>
+#include <atomic>
+#include <memory>
+#include <algorithm>
 
 using namespace asl;
 
@@ -134,12 +146,18 @@ struct Item {
 	int opno;
 	std::string bytes; // reference bytes of this item (in the order in force)
 	int order;         // order in force
+	int src = -1;      // arrays: index of the source object (several items may write the same object)
+	bool again = false;
 };
 
 struct Plan {
 	int init = 1;
 	std::vector<Item> items;
 	std::string all;
+	std::vector<int> srcItem;   // source object -> index of the item that defines it
+	bool frag = false;
+	int pause_us = 0;
+	std::vector<size_t> cuts;   // sorted distinct offsets in (0, all.size())
 };
 
 static std::string drop_nul(const std::string& s)
@@ -182,6 +200,18 @@ static Plan decode(const vf::Case& c)
 				ref_put(it.bytes, it.x.back(), TYPE_SIZE[it.t], order);
 			}
 		}
+		else if (o.name == "ra") {
+			if (p.srcItem.empty())
+				continue;
+			const Item& first = p.items[p.srcItem[(size_t)(((o.i(0) % (long long)p.srcItem.size()) + (long long)p.srcItem.size()) % (long long)p.srcItem.size())]];
+			it.kind = 2;
+			it.t = first.t;
+			it.x = first.x;
+			it.src = first.src;
+			it.again = true;
+			for (uint64_t u : it.x)
+				ref_put(it.bytes, u, TYPE_SIZE[it.t], order);
+		}
 		else if (o.name == "s") {
 			it.kind = 3;
 			it.t = (int)(((o.i(0) % 3) + 3) % 3);
@@ -191,10 +221,36 @@ static Plan decode(const vf::Case& c)
 		else
 			continue;
 		it.order = order;
+		if (it.kind == 2 && !it.again) {
+			it.src = (int)p.srcItem.size();
+			p.srcItem.push_back((int)p.items.size());
+		}
 		p.all += it.bytes;
 		p.items.push_back(it);
 		if (p.items.size() >= 64)
 			break;
+	}
+	// fragmentation of the delivery to the Socket reader
+	for (const vf::Op& o : c.ops) {
+		if (o.name != "frag" || p.frag || p.items.empty())
+			continue;
+		p.frag = true;
+		p.pause_us = (int)(o.i(0) < 0 ? 0 : o.i(0) > 2000 ? 2000 : o.i(0));
+		std::vector<size_t> start;
+		size_t off = 0;
+		for (const Item& it : p.items) {
+			start.push_back(off);
+			off += it.bytes.size();
+		}
+		for (size_t k = 1; k + 1 < o.a.size() && p.cuts.size() < 12; k += 2) {
+			size_t j = (size_t)((o.a[k] < 0 ? -o.a[k] : o.a[k]) % (long long)p.items.size());
+			size_t n = p.items[j].bytes.size();
+			size_t cut = start[j] + (n ? (size_t)((o.a[k + 1] < 0 ? -o.a[k + 1] : o.a[k + 1]) % (long long)n) : 0);
+			if (cut > 0 && cut < p.all.size())
+				p.cuts.push_back(cut);
+		}
+		std::sort(p.cuts.begin(), p.cuts.end());
+		p.cuts.erase(std::unique(p.cuts.begin(), p.cuts.end()), p.cuts.end());
 	}
 	return p;
 }
@@ -212,7 +268,7 @@ static std::string describe(const Item& it)
 	if (it.kind == 1)
 		d += std::string(TYPE_NAME[it.t]) + " scalar";
 	else if (it.kind == 2)
-		d += std::string("Array<") + TYPE_NAME[it.t] + "> of " + std::to_string(it.x.size());
+		d += std::string("Array<") + TYPE_NAME[it.t] + "> of " + std::to_string(it.x.size()) + (it.again ? " (the same object written again)" : "");
 	else if (it.kind == 3)
 		d += it.t == 0 ? "const char*" : it.t == 1 ? "String" : "ByteArray";
 	return d + " in " + ORDER_NAME[it.order] + " order";
@@ -221,8 +277,31 @@ static std::string describe(const Item& it)
 // ---------------------------------------------------------------------------------------------
 // writing through the stream operators of any of the three sinks
 
+// the source Array objects of a case: created once, alive until the case ends, shared by all sinks and by "ra" items
+struct Sources {
+	std::vector<std::shared_ptr<void>> arr;
+	template <class T>
+	Array<T>& get(int i)
+	{
+		return *(Array<T>*)arr[(size_t)i].get();
+	}
+	explicit Sources(const Plan& p)
+	{
+		for (int idx : p.srcItem) {
+			const Item& it = p.items[(size_t)idx];
+			with_type(it.t, [&](auto tag) {
+				typedef typename decltype(tag)::type T;
+				Array<T>* a = new Array<T>;
+				for (uint64_t u : it.x)
+					*a << from_bits<T>(u);
+				arr.push_back(std::shared_ptr<void>(a, [](void* q) { delete (Array<T>*)q; }));
+			});
+		}
+	}
+};
+
 template <class S>
-static void write_item(S& s, const Item& it)
+static void write_item(S& s, const Item& it, Sources& src, const char* sink)
 {
 	if (it.kind == 0)
 		s.setEndian((Endian)it.t);
@@ -231,14 +310,18 @@ static void write_item(S& s, const Item& it)
 			typedef typename decltype(tag)::type T;
 			T x = from_bits<T>(it.x[0]);
 			s << x;
+			VF_CHECK(to_bits<T>(x) == it.x[0], sink, ": operator<< changed its argument: ", describe(it));
 		});
 	else if (it.kind == 2)
 		with_type(it.t, [&](auto tag) {
 			typedef typename decltype(tag)::type T;
-			Array<T> a;
-			for (uint64_t u : it.x)
-				a << from_bits<T>(u);
+			const Array<T>& a = src.get<T>(it.src);
 			s << a;
+			// writing does not change what was written
+			VF_CHECK((size_t)a.length() == it.x.size(), sink, ": operator<< changed the length of its argument: ", describe(it), " now has ", a.length(), " elements");
+			for (size_t k = 0; k < it.x.size(); k++)
+				VF_CHECK(to_bits<T>(a[(int)k]) == it.x[k], sink, ": operator<< changed its argument: ", describe(it), ": element ", k, " of the caller's array is now ", hx(to_bits<T>(a[(int)k])),
+				         ", was ", hx(it.x[k]));
 		});
 	else if (it.t == 0) {
 		// exact-size heap copy: reading past the terminator is an ASan error
@@ -246,17 +329,21 @@ static void write_item(S& s, const Item& it)
 		memcpy(p, it.s.c_str(), it.s.size() + 1);
 		const char* cp = p;
 		s << cp;
+		bool same = memcmp(p, it.s.c_str(), it.s.size() + 1) == 0;
 		free(p);
+		VF_CHECK(same, sink, ": operator<< changed its argument: ", describe(it));
 	}
 	else if (it.t == 1) {
 		String str(it.s.c_str());
 		s << str;
+		VF_CHECK((size_t)str.length() == it.s.size() && memcmp(*str, it.s.c_str(), it.s.size() + 1) == 0, sink, ": operator<< changed its argument: ", describe(it));
 	}
 	else {
 		ByteArray b((int)it.s.size());
 		if (!it.s.empty())
 			memcpy(b.data(), it.s.data(), it.s.size());
 		s << b;
+		VF_CHECK((size_t)b.length() == it.s.size() && (it.s.empty() || memcmp(b.data(), it.s.data(), it.s.size()) == 0), sink, ": operator<< changed its argument: ", describe(it));
 	}
 }
 
@@ -314,6 +401,7 @@ struct FileIn {
 struct SockIn {
 	Socket s;
 	int peer;
+	bool prefed = false; // a feeder thread delivers the bytes (fragmented mode)
 	SockIn(int fd, int peerfd) : s(fd), peer(peerfd) {}
 	void setEndian(Endian e) { s.setEndian(e); }
 	template <class T>
@@ -339,7 +427,7 @@ struct SockIn {
 	void feed(const std::string& b)
 	{
 		size_t off = 0;
-		while (off < b.size()) {
+		while (!prefed && off < b.size()) {
 			ssize_t n = ::send(peer, b.data() + off, b.size() - off, MSG_NOSIGNAL);
 			VF_CHECK(n > 0, "harness: send to the socketpair peer failed, errno ", errno);
 			off += (size_t)n;
@@ -406,19 +494,76 @@ static void drain(int fd, std::string& out)
 	}
 }
 
+// The peer delivers the reference bytes in the generated pieces; after each piece it waits until the reader has taken
+// everything delivered so far (then the reader sits in a read that needs a further recv when the cut is inside a value)
+// and a generated pause longer, and sends the next piece, which usually holds more than the rest of that value.
+// Timing only decides which path of the reader is taken; the oracle is values read == reference.
+static void read_back_fragmented(const Plan& p)
+{
+	int sv[2];
+	VF_CHECK(socketpair(AF_UNIX, SOCK_STREAM, 0, sv) == 0, "harness: socketpair failed, errno ", errno);
+	std::atomic<bool> stop(false);
+	const int rfd = sv[0], wfd = sv[1];
+	std::thread feeder([&p, &stop, rfd, wfd]() {
+		std::vector<size_t> ends = p.cuts;
+		ends.push_back(p.all.size());
+		size_t off = 0;
+		for (size_t e : ends) {
+			while (off < e && !stop) {
+				ssize_t n = ::send(wfd, p.all.data() + off, e - off, MSG_NOSIGNAL);
+				if (n <= 0) {
+					if (n < 0 && errno == EINTR)
+						continue;
+					stop = true;
+					break;
+				}
+				off += (size_t)n;
+			}
+			if (e == p.all.size() || stop)
+				break;
+			for (int spin = 0; spin < 40000 && !stop; spin++) {
+				int q = 0;
+				if (ioctl(rfd, FIONREAD, &q) != 0 || q == 0)
+					break;
+				usleep(50);
+			}
+			if (p.pause_us)
+				usleep((useconds_t)p.pause_us);
+		}
+		shutdown(wfd, SHUT_WR); // a reader that wants more than was sent gets end-of-stream instead of blocking for ever
+	});
+	try {
+		SockIn in(sv[0], -1);
+		in.prefed = true;
+		in.setEndian((Endian)p.init);
+		read_back(in, p, "Socket (delivery in pieces)");
+		VF_CHECK(in.s.error() == 0, "Socket reader (delivery in pieces): error state ", in.s.error(), " after reading everything back");
+		VF_CHECK(in.s.available() == 0, "Socket reader (delivery in pieces): ", in.s.available(), " bytes left after reading everything back");
+	}
+	catch (...) {
+		stop = true; // the reader's socket is closed by now: the feeder's send / ioctl fail and it ends
+		feeder.join();
+		close(wfd);
+		throw;
+	}
+	feeder.join();
+	close(wfd);
+}
+
 static int g_caseno = 0;
 
 void vf_run_case(const std::string& part, const vf::Case& c)
 {
 	Plan p = decode(c);
-	bool doBuf = part != "file" && part != "socket", doFile = part != "buffer" && part != "socket", doSock = part != "buffer" && part != "file";
+	Sources src(p);
+	bool doBuf = part != "file" && part != "socket" && part != "frag", doFile = part != "buffer" && part != "socket" && part != "frag", doSock = part != "buffer" && part != "file";
 
 	// ---- StreamBuffer / StreamBufferReader
 	if (doBuf) {
 		StreamBuffer b((Endian)p.init);
 		size_t off = 0;
 		for (const Item& it : p.items) {
-			write_item(b, it);
+			write_item(b, it, src, "StreamBuffer");
 			size_t n = it.bytes.size();
 			VF_CHECK((size_t)b.length() == off + n && (n == 0 || memcmp(b.data() + off, it.bytes.data(), n) == 0), "StreamBuffer: ", describe(it), " appended ", (long)b.length() - (long)off,
 			         " bytes ", vf::hexs(std::string((const char*)b.data() + off, (size_t)(b.length() > (int)off ? std::min<size_t>(b.length() - off, 64) : 0))), " want ", n, " bytes ",
@@ -461,7 +606,7 @@ void vf_run_case(const std::string& part, const vf::Case& c)
 			VF_CHECK(!!f, "harness: cannot create ", path);
 			f.setEndian((Endian)p.init);
 			for (const Item& it : p.items)
-				write_item(f, it);
+				write_item(f, it, src, "File");
 			// closed by the destructor
 		}
 		std::string got;
@@ -495,7 +640,7 @@ void vf_run_case(const std::string& part, const vf::Case& c)
 				s.setEndian((Endian)p.init);
 				size_t off = 0;
 				for (const Item& it : p.items) {
-					write_item(s, it);
+					write_item(s, it, src, "Socket");
 					drain(sv[1], got);
 					size_t n = it.bytes.size();
 					VF_CHECK(got.size() == off + n && got.compare(off, n, it.bytes) == 0, "Socket: ", describe(it), " sent ", (long)got.size() - (long)off, " bytes ",
@@ -528,6 +673,8 @@ void vf_run_case(const std::string& part, const vf::Case& c)
 		}
 		if (sv[1] >= 0)
 			close(sv[1]);
+		if (p.frag && !p.cuts.empty())
+			read_back_fragmented(p);
 	}
 }
 
@@ -585,6 +732,10 @@ static Gen<vf::Op> opgen()
 			o.name = "order";
 			o.a = {*vf::irange<int>(0, 2)};
 		}
+		else if (w < 21) {
+			o.name = "ra";
+			o.a = {*vf::irange<int>(0, 63)};
+		}
 		else if (w < 60) {
 			o.name = "v";
 			int t = *vf::irange<int>(0, 11);
@@ -612,14 +763,63 @@ static Gen<vf::Op> opgen()
 	});
 }
 
+// cuts: (item, byte inside the item) pairs; mostly inside a value, sometimes on a boundary
+static Gen<vf::Op> fraggen()
+{
+	return gen::exec([]() {
+		vf::Op o("frag");
+		o.a.push_back(*gen::elementOf(std::vector<int>{0, 0, 50, 200, 500}));
+		int n = *gen::elementOf(std::vector<int>{1, 1, 2, 2, 3, 5});
+		for (int i = 0; i < n; i++) {
+			o.a.push_back(*vf::irange<int>(0, 63));
+			int w = *vf::irange<int>(0, 9);
+			o.a.push_back(w < 5 ? *vf::irange<int>(1, 7) : w < 7 ? 0 : *vf::irange<int>(0, 800));
+		}
+		return o;
+	});
+}
+
 static Gen<vf::Case> casegen()
 {
-	return gen::map(gen::pair(vf::irange<int>(0, 3), gen::container<std::vector<vf::Op>>(opgen())), [](const std::pair<int, std::vector<vf::Op>>& p) {
+	return gen::exec([]() {
 		vf::Case c;
-		if (p.first < 3)
-			c.ops.push_back(vf::Op("init", {p.first}));
-		for (auto& o : p.second)
+		int init = *vf::irange<int>(0, 3);
+		if (init < 3)
+			c.ops.push_back(vf::Op("init", {init}));
+		for (auto& o : *gen::container<std::vector<vf::Op>>(opgen()))
 			c.ops.push_back(o);
+		if (*vf::irange<int>(0, 7) == 0)
+			c.ops.push_back(*fraggen());
+		return c;
+	});
+}
+
+// short sequences of multi-byte values and small arrays for the Socket reader with delivery in pieces
+static Gen<vf::Case> fragcasegen()
+{
+	return gen::exec([]() {
+		vf::Case c;
+		c.ops.push_back(vf::Op("init", {*vf::irange<int>(0, 2)}));
+		int n = *vf::irange<int>(2, 9);
+		for (int i = 0; i < n; i++) {
+			int w = *vf::irange<int>(0, 9);
+			int t = *gen::elementOf(std::vector<int>{4, 5, 6, 7, 8, 9, 10, 11, 6, 8, 11, 3});
+			if (w < 6)
+				c.ops.push_back(vf::Op("v", {t, *pattern(t)}));
+			else if (w < 9) {
+				vf::Op o("a", {t});
+				int len = *vf::irange<int>(1, 12);
+				for (int k = 0; k < len; k++)
+					o.a.push_back(*pattern(t));
+				c.ops.push_back(o);
+			}
+			else
+				c.ops.push_back(vf::Op("order", {*vf::irange<int>(0, 2)}));
+		}
+		vf::Op f = *fraggen();
+		for (size_t k = 1; k + 1 < f.a.size(); k += 2)
+			f.a[k] %= n;
+		c.ops.push_back(f);
 		return c;
 	});
 }
@@ -628,7 +828,7 @@ static void classify(const vf::Case& c)
 {
 	Plan p = decode(c);
 	auto& st = vf::stats();
-	bool multi = false, sw = false, native = p.init == 2;
+	bool multi = false, sw = false, native = p.init == 2, rewritten = false;
 	int order = p.init;
 	bool nan = false;
 	for (const Item& it : p.items) {
@@ -648,6 +848,16 @@ static void classify(const vf::Case& c)
 				st.cls("array.empty");
 			if (it.x.size() == 100)
 				st.cls("array.len100");
+			if (it.again) {
+				st.cls("array.same_object_written_again");
+				const Item& first = p.items[(size_t)p.srcItem[(size_t)it.src]];
+				bool swapped1 = first.order == 0, swapped2 = it.order == 0; // on this (little-endian) host BIG is the swapping order
+				if (TYPE_SIZE[it.t] > 1 && !it.x.empty()) {
+					rewritten = true;
+					if (swapped1 != swapped2)
+						st.cls("array.written_again_in_the_other_byte_order");
+				}
+			}
 		}
 		if (it.kind == 1)
 			st.cls(std::string("scalar.") + TYPE_NAME[it.t]);
@@ -668,7 +878,48 @@ static void classify(const vf::Case& c)
 		st.cls("case.nan_payload");
 	if (p.items.size() >= 40)
 		st.cls("case.ops>=40");
-	if (multi || sw || native) {
+	if (rewritten)
+		st.cls("case.multibyte_array_written_again");
+	bool fragnt = false;
+	if (p.frag && !p.cuts.empty()) {
+		st.cls("case.socket_delivery_in_pieces");
+		// where do the cuts fall?
+		std::vector<size_t> start, end;
+		size_t off = 0;
+		for (const Item& it : p.items) {
+			start.push_back(off);
+			off += it.bytes.size();
+			end.push_back(off);
+		}
+		for (size_t k = 0; k < p.cuts.size(); k++) {
+			size_t cut = p.cuts[k], next = k + 1 < p.cuts.size() ? p.cuts[k + 1] : p.all.size();
+			bool inside = false;
+			for (size_t j = 0; j < p.items.size(); j++) {
+				const Item& it = p.items[j];
+				if (cut <= start[j] || cut >= end[j])
+					continue;
+				// inside item j: inside one read() of the reader? (scalars and array elements are read one by one, strings and bytes in one read)
+				size_t unit = (it.kind == 1 || it.kind == 2) ? (size_t)TYPE_SIZE[it.t] : it.bytes.size();
+				size_t rel = (cut - start[j]) % unit;
+				if (rel != 0) {
+					inside = true;
+					size_t unit_end = cut - rel + unit;
+					st.cls("frag.cut_inside_a_value");
+					if (it.kind == 2)
+						st.cls("frag.cut_inside_an_array_element");
+					if (next > unit_end) {
+						st.cls("frag.cut_inside_a_value,next_piece_holds_more_than_the_rest");
+						fragnt = true;
+						if (next >= unit_end + 8)
+							st.cls("frag.cut_inside_a_value,several_following_values_queued");
+					}
+				}
+			}
+			if (!inside)
+				st.cls("frag.cut_on_a_value_boundary");
+		}
+	}
+	if (multi || sw || native || fragnt || rewritten) {
 		st.nt(vf::fnv(vf::serialize(c)));
 		if (p.items.size() >= 3 && p.items.size() <= 6 && p.all.size() < 60)
 			st.sample(vf::serialize(c) + "-> " + vf::hexs(p.all), 4);
@@ -697,6 +948,13 @@ void vf_search(const vf::Args& a)
 					c.add(o);
 					c.add(vf::Op("order", {order}));
 				}
+				// the same array objects once more, in the next order and back in the first one
+				c.add(vf::Op("order", {(order + 1) % 3}));
+				for (int k = 0; k < 5; k++)
+					c.add(vf::Op("ra", {2 * k}));
+				c.add(vf::Op("order", {order}));
+				c.add(vf::Op("ra", {3}));
+				c.add(vf::Op("ra", {8}));
 				if ((int)(n % (uint64_t)a.workers) == a.worker || true) {
 					if (!vf::runner().run("seq", c))
 						return;
@@ -708,4 +966,6 @@ void vf_search(const vf::Args& a)
 	}();
 	// (2) generated sequences (all three sinks per case)
 	[&]() { vf::check_cases("seq", a.n(2500, 30000), 64, casegen(), classify); }();
+	// (3) Socket reader with the delivery cut into pieces (socket sink only)
+	[&]() { vf::check_cases("frag", a.n(400, 6000), 40, fragcasegen(), classify); }();
 }
